@@ -51,6 +51,13 @@ def cand_stream(ctx, ci):
         for (tag, x, y) in K.small_subgroup_points(ci):
             for form in K.ENCS:
                 cands.append((K.enc_point(ci, x, y, form), "order-" + tag))
+        # BOTH parities of the compressed encoding of each 2-torsion x (alpha = 0 has the single root 0: `03||x` asks for an
+        # odd root that does not exist and must be refused; `02||x` is the K2 acceptance)
+        for x in K.two_torsion_x(ci):
+            for pre in (2, 3):
+                cands.append((bytes([pre]) + x.to_bytes(ci.l, "big"), "two-torsion-compressed-%02x" % pre))
+            for pre in (6, 7):
+                cands.append((bytes([pre]) + x.to_bytes(ci.l, "big") + bytes(ci.l), "two-torsion-hybrid-%02x" % pre))
     return cands
 
 
@@ -107,6 +114,10 @@ def der_stream(ctx, ci, others):
     out.append((K.spki(ci.oid, K.enc_point(ci, x, (y + 1) % ci.p, "uncompressed")), "off-curve-in-spki"))
     out.append((K.spki(ci.oid, bytes([6 + (1 - (y & 1))]) + K.enc_point(ci, x, y, "raw")), "hybrid-mismatch-in-spki"))
     out.append((K.spki(ci.oid, b"\x04" + K.enc_point(ci, x, y, "raw")[:-1]), "short-point-in-spki"))
+    if ci.h != 1:
+        for x2 in K.two_torsion_x(ci):
+            for pre in (2, 3):
+                out.append((K.spki(ci.oid, bytes([pre]) + x2.to_bytes(ci.l, "big")), "good-wrapper-two-torsion-%02x" % pre))
     good = K.spki(ci.oid, K.enc_point(ci, x, y, "uncompressed"))
     for _ in range(6 if ctx.quick else 400):
         m, kind = K.mutate(rng, good)
@@ -325,6 +336,13 @@ def correspond(ctx):
                 out = K.real(hk, lambda: VerifyingKey.from_string(arg, cv))
                 K.add(c, "vk_from_string %s %s 1 %s %s" % (ct, hx(bs), hk.sqrt_tok(), hk.sub_tok()), out, K.fmt_vk,
                       "toy-h%s%s/%s" % (ci.h, "" if ci.declared_h is not None else "-undeclared", kind))
+        for ci in K.mid_toys():      # coordinate length 2: the compressed form on user curves with 2-torsion
+            cv, ct = ci.cv, K.curve_tok(ci.cv)
+            for bs in K.mid_candidates(ci):
+                arg = K.wrap(rot.pick(False, bs), bs)
+                out = K.real(hk, lambda: VerifyingKey.from_string(arg, cv))
+                K.add(c, "vk_from_string %s %s 1 %s %s" % (ct, hx(bs), hk.sqrt_tok(), hk.sub_tok()), out, K.fmt_vk,
+                      "mid-h%s%s" % (ci.h, "" if ci.declared_h is not None else "-undeclared"))
         # a named curve's parameters on a CurveFp created without the cofactor (cofactor() is None: the test must run)
         for ci in extra_named(ctx):
             cv, ct = ci.cv, K.curve_tok(ci.cv)
@@ -339,7 +357,7 @@ def correspond(ctx):
                 arg = K.wrap(rotn.pick(False, buf), buf)
                 out = K.real(hk, lambda: VerifyingKey.from_der(arg))
                 K.add(c, "vk_from_der %s %s %s" % (hx(buf), hk.sqrt_tok(), hk.sub_tok()), out, K.fmt_vkc, "der-" + tag)
-                if tag in ("good", "alg-rsa", "unknown-curve", "raw-form", "trailing-top", "unused-1") or tag.startswith("good"):
+                if tag in ("alg-rsa", "unknown-curve", "raw-form", "trailing-top", "unused-1") or tag.startswith("good"):
                     pem = K.pem(buf, "PUBLIC KEY")
                     out = K.real(hk, lambda: VerifyingKey.from_pem(pem))
                     K.add(c, "vk_from_pem %s %s %s" % (hx(pem), hk.sqrt_tok(), hk.sub_tok()), out, K.fmt_vkc, "pem-" + tag)
@@ -470,6 +488,14 @@ def search(ctx):
             rec = check_string(ctx, ci, bs, "toy-h%d" % ci.h, VerifyingKey, MalformedPointError, kind=rot.pick(False, bs))
             if rec:
                 found.append(rec)
+    for ci in K.mid_toys():
+        cands = K.mid_candidates(ci)
+        for bs in cands:
+            n_eval += 1
+            rec = check_string(ctx, ci, bs, "mid-h%d" % ci.h, VerifyingKey, MalformedPointError, kind=rot.pick(False, bs))
+            if rec:
+                found.append(rec)
+        ctx.hist("search.class", "mid-h%d%s" % (ci.h, "" if ci.declared_h is not None else "-undeclared"), len(cands))
     for ci in extra_named(ctx):
         for (bs, tag) in cand_stream(ctx, ci):
             n_eval += 1
@@ -477,13 +503,6 @@ def search(ctx):
             if rec:
                 found.append(rec)
         ctx.hist("search.class", "toy-h%d%s" % (ci.h, "" if ci.declared_h is not None else "-undeclared"), len(cands))
-    confirm_k2(ctx, found)
-    for rec in found:
-        if rec.get("known") == "K2":
-            k2 += 1
-            if k2 > 2:
-                continue
-        ctx.violation(rec)
     # 3. the DER / PEM wrapper against the strict parser
     for ci in cis:
         for (buf, tag) in der_stream(ctx, ci, cis):
@@ -502,7 +521,27 @@ def search(ctx):
                 if got not in exp:
                     rec = {"input": {"entry": "VerifyingKey.from_" + entry, "bytes": buf.hex(), "class": tag, "argument_type": kind},
                            "observed": got, "expected": sorted(map(str, exp))}
-                    ctx.violation(rec)
+                    # K2 inside the wrapper: a good SPKI whose point string the strict validator refuses ONLY for the subgroup
+                    # clause, the accepted key is the encoded point and n*P has y = 0; confirmed against the composed model
+                    if why == "bad-point" and isinstance(got, tuple):
+                        try:
+                            _, cvo, _, ptb = K.parse_spki(buf)
+                            cj = next(x for x in cis if x.oid == cvo)
+                            xy = K.coords_of(cj, ptb)
+                            if xy == got[2:] and cj.order2_after_n(*xy):
+                                rec["known"] = "K2"
+                                rec["_k2_line"] = ("vk_from_der %s m m" % hx(buf)) if entry == "der" else ("vk_from_pem %s m m" % hx(K.pem(buf, "PUBLIC KEY")))
+                                rec["_k2_impl"] = "ok %s %d %d" % (got[1], got[2], got[3])
+                        except (K.DerError, StopIteration):
+                            pass
+                    found.append(rec)
+    confirm_k2(ctx, found)
+    for rec in found:
+        if rec.get("known") == "K2":
+            k2 += 1
+            if k2 > 2:
+                continue
+        ctx.violation(rec)
     ctx.cov["search_evaluations"] = n_eval
     ctx.cov["known_K2_hits"] = k2
     ctx.hist("search", "oracle_cases", n_eval)
